@@ -1,7 +1,7 @@
 """C13 -- under any connection fault the client never pairs a reply with the wrong request, never reports success for an
 incompletely received reply, and never silently returns fewer results than operations."""
 from vrt import glue, sim, cli
-from vrt.ob import define
+from vrt.ob import define, concretize
 import cpppo
 from cpppo.server.enip import parser, device, logix, client, ucmm, get_attribute
 
@@ -17,6 +17,7 @@ DRIVES = ['cpppo.server.enip.client.client.__next__ (EOF between frames / inside
 STUBS = ['socket.create_connection -> in-process FakeSock wired to the real simulator, with a byte-offset cut then EOF', 'select.select -> FakeSock readiness',
          'misc.timer -> counter', 'random -> counter']
 OPS = ["A[1-2]=7,8", "A[0-3]", "B[0-1]", "A[5-6]"]         # the last one is refused by the simulator (beyond the end)
+OPS2 = ["A[1-2]=7,8", "A[0-3]"]                               # the short exchange used by the quick tier (tracing a whole exchange costs ~5 s per operation)
 
 
 def exchange(depth, multiple, cut=None, ccut=None, api='operate', drop=None, ops=None):
@@ -31,7 +32,7 @@ def exchange(depth, multiple, cut=None, ccut=None, api='operate', drop=None, ops
         c, wire, sock = cli.connect(cut=cut, ccut=ccut, drop=drop, tags=TAGS)
         with c:
             if api == 'process':
-                failures, values = c.process(client.parse_operations(OPS), depth=depth, multiple=multiple, timeout=1)
+                failures, values = c.process(client.parse_operations(ops or OPS), depth=depth, multiple=multiple, timeout=1)
                 got = [(None, v if v is None or v is True else list(v)) for v in values]
             else:
                 for i, d, rq, rp, st, v in c.operate(client.parse_operations(ops or OPS), depth=depth, multiple=multiple, timeout=1):
@@ -42,10 +43,16 @@ def exchange(depth, multiple, cut=None, ccut=None, api='operate', drop=None, ops
 
 
 CONFIGS = [(0, 0), (1, 0), (3, 0), (2, 200), (0, 500)]
+QCONFIGS = [(0, 0, 'q'), (1, 0, 'q'), (2, 200, 'q')]
+OPSOF = {}
+for _c in CONFIGS:
+    OPSOF[_c] = OPS
+for _c in QCONFIGS:
+    OPSOF[_c] = OPS2
 BASE = {}
-for _cfg in CONFIGS:
-    g, r, w = exchange(*_cfg)
-    assert not r and len(g) == len(OPS), (g, r)
+for _cfg in CONFIGS + QCONFIGS:
+    g, r, w = exchange(_cfg[0], _cfg[1], ops=OPSOF[_cfg])
+    assert not r and len(g) == len(OPSOF[_cfg]), (g, r)
     # reply stream layout: frame end offsets (register reply first), and how many operation results each frame completes
     ends, at = [], 0
     out = list(w.out)
@@ -54,14 +61,13 @@ for _cfg in CONFIGS:
         at += 24 + ln
         ends.append(at)
     BASE[_cfg] = (g, ends, len(out), w.received)
-PROC = exchange(2, 0, api='process')[0]
+PROC = {True: exchange(2, 0, api='process', ops=OPS2)[0], False: exchange(2, 0, api='process')[0]}
 
 
 def results_inside(cfg, cut):
     """number of operation results whose reply frame is wholly inside the first `cut` bytes of the reply stream"""
     g, ends, total, sent = BASE[cfg]
     frames = sum(1 for e in ends[1:] if e <= cut)            # complete reply frames after the Register reply
-    per = len(OPS) if len(ends) - 1 == 1 else None
     if cfg[1] == 0:
         return frames                                        # one reply frame per operation
     # bundled: count members per frame from the fault-free layout
@@ -69,10 +75,10 @@ def results_inside(cfg, cut):
 
 
 MEMBERS = {}
-for _cfg in CONFIGS:
+for _cfg in CONFIGS + QCONFIGS:
     if _cfg[1]:
         # members per reply frame: parse the Multiple Service Packet reply count of each frame in the fault-free stream
-        g, r, w = exchange(*_cfg)
+        g, r, w = exchange(_cfg[0], _cfg[1], ops=OPSOF[_cfg])
         out = list(w.out)
         counts, at = [0], 0
         first = True
@@ -92,54 +98,56 @@ for _cfg in CONFIGS:
 def do_reply_cut(cfg, cut, api, lo=0, hi=None):
     base, ends, total, sent = BASE[cfg]
     hi = total + 1 if hi is None else min(hi, total + 1)
-    cut = lo + cut % (hi - lo)
-    got, raised, wire = exchange(cfg[0], cfg[1], cut=cut, api=api)
-    ref = base if api == 'operate' else PROC
+    cut = lo + concretize(cut, hi - lo)          # concrete per path: the byte stream the client parses stays concrete
+    ops = OPSOF[cfg]
+    got, raised, wire = exchange(cfg[0], cfg[1], cut=cut, api=api, ops=ops)
+    ref = base if api == 'operate' else PROC[ops is OPS2]
     k = len(got)
     avail = results_inside(cfg, cut)
     ok = got == ref[:k] if api == 'operate' else (k in (0, len(ref)) and got == ref[:k])   # only results correct for their own request
     ok = ok and k <= avail                                    # never a result for a reply that was not completely received
     if cut >= total:
-        return ok and k == len(OPS) and not raised
-    return ok and (raised or k == len(OPS))                   # never silently fewer results than operations
+        return ok and k == len(ops) and not raised
+    return ok and (raised or k == len(ops))                   # never silently fewer results than operations
 
 
 SH = 16          # offsets per shard
-for cfg in CONFIGS:
+for cfg in CONFIGS + QCONFIGS:
     for api in ('operate', 'process'):
         total = BASE[cfg][2]
         for lo in range(0, total + 1, SH):
             hi = min(lo + SH, total + 1)
-            quick = (cfg, api) in (((0, 0), 'operate'), ((2, 200), 'operate')) or ((cfg, api) == ((3, 0), 'process') and lo in (16, 96))
-            define(globals(), 'C13', 'reply_cut_depth%d_multiple%d_%s_%03d' % (cfg[0], cfg[1], api, lo), ['cut'],
+            quick = len(cfg) == 3 and (api == 'operate' or (cfg[:2] == (1, 0) and lo in (16, 64)))
+            define(globals(), 'C13', 'reply_cut_%sdepth%d_multiple%d_%s_%03d' % ('short_' if len(cfg) == 3 else '', cfg[0], cfg[1], api, lo), ['cut'],
                    "return do_reply_cut(%r, cut, %r, %d, %d)" % (cfg, api, lo, hi), ['0 <= cut < %d' % (hi - lo)],
                    tier='quick' if quick else 'thorough', timeout=3000, path_timeout=600, drives=DRIVES, stubs=STUBS,
                    symbolic=['cut: EVERY byte offset in [%d, %d) of the %d-byte server-to-client stream (Register reply + %d reply frames), followed by EOF' % (
                        lo, hi, total, len(BASE[cfg][1]) - 1)],
                    bounds='operations %r with depth=%d, multiple=%d via connector.%s: every yielded result equals the fault-free result at the same index, no '
                           'result for a reply not wholly received, and the result stream either ends with an exception or is complete (a reply lost entirely = '
-                          'cut at a frame boundary); the shards of one configuration cover every offset' % (OPS, cfg[0], cfg[1], api),
+                          'cut at a frame boundary); the shards of one configuration cover every offset' % (OPSOF[cfg], cfg[0], cfg[1], api),
                    outside='timeouts without EOF; real TCP; poll.run back-off (threads + sleeps)')
 
 
 def do_request_cut(cfg, ccut, lo=0, hi=None):
     base, ends, total, sent = BASE[cfg]
     hi = sent + 1 if hi is None else min(hi, sent + 1)
-    ccut = lo + ccut % (hi - lo)
-    got, raised, wire = exchange(cfg[0], cfg[1], ccut=ccut)
+    ccut = lo + concretize(ccut, hi - lo)
+    ops = OPSOF[cfg]
+    got, raised, wire = exchange(cfg[0], cfg[1], ccut=ccut, ops=ops)
     k = len(got)
     ok = got == base[:k]
     if ccut >= sent:
-        return ok and k == len(OPS) and not raised
-    return ok and (raised or k == len(OPS))
+        return ok and k == len(ops) and not raised
+    return ok and (raised or k == len(ops))
 
 
-for cfg in CONFIGS:
+for cfg in CONFIGS + QCONFIGS[1:2]:
     sent = BASE[cfg][3]
     for lo in range(0, sent + 1, 24):
         hi = min(lo + 24, sent + 1)
-        define(globals(), 'C13', 'request_cut_depth%d_multiple%d_%03d' % (cfg[0], cfg[1], lo), ['ccut'], "return do_request_cut(%r, ccut, %d, %d)" % (cfg, lo, hi),
-               ['0 <= ccut < %d' % (hi - lo)], tier='quick' if cfg == (1, 0) and lo in (24, 72) else 'thorough', timeout=3000, path_timeout=600, drives=DRIVES, stubs=STUBS,
+        define(globals(), 'C13', 'request_cut_%sdepth%d_multiple%d_%03d' % ('short_' if len(cfg) == 3 else '', cfg[0], cfg[1], lo), ['ccut'], "return do_request_cut(%r, ccut, %d, %d)" % (cfg, lo, hi),
+               ['0 <= ccut < %d' % (hi - lo)], tier='quick' if len(cfg) == 3 and lo in (24, 72) else 'thorough', timeout=3000, path_timeout=600, drives=DRIVES, stubs=STUBS,
                symbolic=['ccut: EVERY byte offset in [%d, %d) of the client-to-server stream after which the connection breaks (peer sees a partial frame, then closes)' % (lo, hi)],
                bounds='same exchange (depth=%d, multiple=%d) with the client-to-server stream (%d bytes) cut at every offset of the shard' % (cfg[0], cfg[1], sent), outside='')
 
@@ -160,7 +168,8 @@ PROXY_TOTAL = _proxy_stream_length()
 def do_proxy(cut, depth):
     sim.RANDOM.n = 1000
     sim.attribute('A').value[:] = [1, 2, 3, 4, 5, 6]
-    cut = cut % PROXY_TOTAL                                     # a real fault: strictly inside the reply stream of this exchange
+    cut = concretize(cut, PROXY_TOTAL)
+    depth = concretize(depth, 3)                                     # a real fault: strictly inside the reply stream of this exchange
     cli.prepare([dict(cut=cut), dict()], tags=TAGS)
     via = get_attribute.proxy('fake', timeout=1, depth=depth, identity_default='sim')
     first = None
@@ -188,29 +197,29 @@ define(globals(), 'C13', 'proxy_discards_and_reconnects', ['cut', 'depth'], "ret
 
 
 # ---- a reply lost ENTIRELY while later replies still arrive (the dangerous case for mis-pairing) ---------------------------------------------
-OPS6 = ["A[0]", "A[1]", "A[2]", "A[3]", "A[4]", "A[5]"]
+OPS6 = ["A[0]", "A[1]", "A[2]", "A[3]"]
 DROP_CFG = [(2, 0), (3, 60), (2, 100), (0, 60), (1, 0)]       # (depth, multiple): singles, bundles of 2, bundles of 3, synchronous bundles
 DROP_BASE = {}
 for _cfg in DROP_CFG:
     g, r, w = exchange(_cfg[0], _cfg[1], ops=OPS6)
-    assert not r and len(g) == 6, (g, r)
+    assert not r and len(g) == 4, (g, r)
     DROP_BASE[_cfg] = (g, len(w.frames))
 
 
 def do_drop(cfg, k):
     base, nframes = DROP_BASE[cfg]
-    k = 1 + k % (nframes - 1)                                   # one of the operation reply frames (frame 0 is the Register reply)
+    k = 1 + concretize(k, nframes - 1)                                   # one of the operation reply frames (frame 0 is the Register reply)
     got, raised, wire = exchange(cfg[0], cfg[1], drop=k, ops=OPS6)
     n = len(got)
     # only results that are correct for their own request; the stream must end with an error (a reply is missing), never silently short
-    return got == base[:n] and n < 6 and raised
+    return got == base[:n] and n < 4 and raised
 
 
 for cfg in DROP_CFG:
     define(globals(), 'C13', 'reply_lost_depth%d_multiple%d' % cfg, ['k'], "return do_drop(%r, k)" % (cfg,), ['0 <= k'],
            tier='quick' if cfg in ((2, 100),) else 'thorough', timeout=6000, path_timeout=600, drives=DRIVES, stubs=STUBS,
            symbolic=['k: which reply frame (of %d) is lost entirely; all later replies are delivered intact' % (DROP_BASE[cfg][1] - 1)],
-           bounds='6 single-element reads with depth=%d, multiple=%d (so several requests / Multiple Service Packets are in flight): one whole reply frame is '
+           bounds='4 single-element reads with depth=%d, multiple=%d (so several requests / Multiple Service Packets are in flight): one whole reply frame is '
                   'lost and the following ones arrive: every yielded value belongs to its own request (no value of a later request is paired with an earlier '
                   'one) and the result stream ends with an error' % cfg, outside='loss of several replies')
 
